@@ -13,6 +13,8 @@
 //            off-diagonals in {-1,0,1}  (186 624 matrices)
 //  family d  BSE block form [[A,B],[-B,-A]] with A+B, A-B positive definite, HAM mode
 //            (complete 2x2-block lattice, reduced 3x3-block lattice, dense blocks)
+//  family e  large-norm operators: dd matrix + uniform shift +-3e4..3e6, graded diagonals 1..1e6/1e8,
+//            SYMM and as BSE block (HAM); residuals recomputed in long double for every family
 //  x {DPR,OLSEN} x {min,safe,max} x {loose,normal,strict,lapack} x max-search-space
 //  {default, 3*neigen (forces restarts)} x neigen in {1,2,3,n/4} x {dense, matrix-free}.
 //
@@ -1305,7 +1307,12 @@ int main(int argc, char **argv) {
       "block form (all 2x2-block integer matrices, a reduced 3x3-block lattice, dense blocks n in {16,40,120(thorough)}), only "
       "members with A+B, A-B positive definite. A distinct outcome class is (family, status Success|NoConvergence|threw, iteration "
       "count, number of flagged roots, reachable-subspace flag, diagonally-dominant flag). quick: lattices with 2 representative "
-      "option combinations (m=2 BSE lattice: all 48), thorough: all 48. Family r = solver-object reuse: all ordered pairs (quick) / "
+      "option combinations (m=2 BSE lattice: all 48), thorough: all 48. Family e = large-norm operators: strictly diagonally dominant matrix + uniform shift s*I, s in {+-3e4,+-3e5,+-3e6}, and graded "
+      "diagonals 1..1e6 / 1..1e8 (ascending and shuffled), n in {8,16,40(thorough)}, dense and matrix-free, all 48 option combinations, "
+      "plus the same as block A of the BSE form (HAM); (operator, tolerance) pairs with eps*n*|wanted root| > tol/100 are not part of "
+      "the space (counter skipped_tolerance_below_double_rounding_of_wanted_roots); reference in long double. For EVERY family the "
+      "residual |A v - theta v| of every returned pair is recomputed in long double and must be <= selected tol * 1.001 + 4 n "
+      "eps_longdouble || |A||v| + |theta||v| || (the rounding of the recomputation, < 1e-3 tol for all operators here). Family r = solver-object reuse: all ordered pairs (quick) / "
       "triples (thorough) over 9 (matrix, options) elements {easy dd, OLSEN+matrix-free, iter_max 2/1/3 NoConvergence, other n and "
       "neigen, n=8, HAM, explicit search-space limit} solved on ONE solver object with options set through the public setters; after "
       "every solve the result must equal a fresh solver's (status, iterations, values, vectors to 1e-12) and pass the per-solve oracle.";
